@@ -58,11 +58,11 @@ def model_line(scenario, kind='rat'):
                     # What the object promises is decided on entry, so for the machine this is `sleep d; claim ...`
                     out.append(['sleep', e[4]])
                     out.append(fix([e[0][:-5]] + e[1:4] + e[5:]))
-                elif isinstance(e, list) and e and e[0] in ('intervallater', 'delayiterlater'):
+                elif isinstance(e, list) and e and e[0] in ('intervallater', 'delayiterlater', 'intervalkept'):
                     # ['intervallater', period, n, d, body...]: the ticker object is made, `d` passes, the loop is entered. The grid
                     # starts where the iteration starts, so for the machine this is `sleep d; interval ...`
                     out.append(['sleep', e[3]])
-                    out.append(fix([e[0][:-5]] + e[1:3] + e[4:]))
+                    out.append(fix([('interval' if e[0] == 'intervalkept' else e[0][:-5])] + e[1:3] + e[4:]))
                 else:
                     out.append(fix(e))
             return out
@@ -631,14 +631,17 @@ class Interp:
                 raise
             else:
                 self.emit(label, 'tdone', [s[1]])
-        elif h in ('intervallater', 'delayiterlater'):
+        elif h in ('intervallater', 'delayiterlater', 'intervalkept'):
             from usim import interval, delay
             made = None
             if s[2] > 0:
-                made = (interval if h == 'intervallater' else delay)(self.tv(s[1]))
+                made = (delay if h == 'delayiterlater' else interval)(self.tv(s[1]))
+            if h == 'intervalkept':
+                # the program keeps the ticker object somewhere else as well (a list, an attribute): it is not garbage when its loop is abandoned
+                self.__dict__.setdefault('kept_tickers', []).append(made)
             await self.stmt(label, ['sleep', s[3]])
             self._premade_ticker = made
-            await self.stmt(label, [h[:-5], s[1], s[2]] + list(s[4:]))
+            await self.stmt(label, ['interval' if h == 'intervalkept' else h[:-5], s[1], s[2]] + list(s[4:]))
         elif h in ('interval', 'delayiter'):
             from usim import interval, delay
             premade, self._premade_ticker = getattr(self, '_premade_ticker', None), None
